@@ -12,6 +12,7 @@ import Driver.OpenFile
 import Driver.Id3Date
 import Driver.Dict
 import Driver.Id3Spec
+import Driver.TagCodec
 open Driver
 
 def dispatch (line : String) : String :=
@@ -32,6 +33,7 @@ def dispatch (line : String) : String :=
     | "id3date" => id3dateOp a
     | "dict" => dictOp a
     | "id3spec" => id3specOp a
+    | "tagc" => tagcOp a
     | "flacinfo" => flacInfoOp a
     | "ping" => "pong"
     | _ => "bad-op"
